@@ -237,6 +237,18 @@ def site_guarded(sem, vis, bb, fact_pred):
                     if (blk.idx, succ) in removed:
                         continue
                     for f in fl:
+                        if f[0] == "truth":
+                            # a bool flag assigned constants on different branches (`matches!(..)`, `let ok = if c { true } else { false }`)
+                            x = sem.w.ident(f[1], expand_ws=False)
+                            alts = x.args if x.op == "phi" else (x,)
+                            if len(alts) < 2 or not all(a.op == "const" and a.info[0] == "scalar" and a.site is not None and a.site[0] == level.body.path for a in alts):
+                                continue
+                            mine = [a for a in alts if bool(a.info[1]) == f[2]]
+                            if mine and all(a.site[1] not in reach for a in mine):
+                                pass_edges.add((blk.idx, succ))
+                                removed.add((blk.idx, succ))
+                                grew = True
+                            continue
                         if f[0] != "variant":
                             continue
                         x = sem.w.ident(f[1], expand_ws=False)
